@@ -206,25 +206,29 @@ class Ref:
                 else:
                     deps = set(sdeps)
                     start, stop, step = sel[1], sel[2], sel[3]
+                    d_start = d_stop = d_step = frozenset()
                     if start is None:
                         start = 0
                     else:
-                        start, d = self._int_of(start, "slice start")
-                        deps |= d
+                        start, d_start = self._int_of(start, "slice start")
+                        deps |= d_start
                     if stop is None:
                         stop = n
                     else:
-                        stop, d = self._int_of(stop, "slice stop")
-                        deps |= d
+                        stop, d_stop = self._int_of(stop, "slice stop")
+                        deps |= d_stop
                     if step is None:
                         step = 1
                     else:
-                        step, d = self._int_of(step, "slice step")
-                        deps |= d
+                        step, d_step = self._int_of(step, "slice step")
+                        deps |= d_step
                     deps = frozenset(deps)
+                    # a fault of ONE bound is known as soon as that bound is (a literal: at once)
                     if step < 1:
-                        raise Invalid("slice", f"step {step}", deps)
-                    if start < 0 or stop > n or stop < start:
+                        raise Invalid("slice", f"step {step}", frozenset(d_step))
+                    if start < 0:
+                        raise Invalid("slice", f"start {start}", frozenset(d_start))
+                    if stop > n or stop < start:
                         raise Invalid("slice", f"{start}:{stop}:{step} of size {n}", deps)
                     res = ("reg", tuple(sel_elems[start + k * step] for k in range(len(range(start, stop, step)))), deps)
         self._elems_cache[name] = res
